@@ -650,3 +650,81 @@ Proof.
     apply (loops_spec F win my mx tgt (sk_B sk) ny nx _ 0 2 k ey ex ry); try assumption; try lia.
     apply iterB; assumption.
 Qed.
+
+(* ================================================================== the four roles
+   What each model additionally fixes about its loop: the start offsets, the kernel, what the
+   written array holds before the loop (zeros / a constant / a copy of the very array the windows
+   are views of).  [skeleton_wf] is a conjunct of each. *)
+
+Definition kernel_eqb (a b : kernel) : bool := if kernel_eq_dec a b then true else false.
+Lemma kernel_eqb_eq : forall a b, kernel_eqb a b = true -> a = b.
+Proof. intros a b. unfold kernel_eqb. destruct (kernel_eq_dec a b); [auto | discriminate]. Qed.
+
+Definition half_win : expr := EIntHalf EWin.                       (* int(W / 2) *)
+Definition half_win_m1 : expr := EIntHalf (ESub EWin (EConst 1)).  (* int((W - 1) / 2) *)
+
+(* argmin_split / argmax_split: offsets 0, np.zeros output, chunks of the cost volume itself *)
+Definition wta_skeleton_ok (mx : bool) (sk : skeleton) : bool :=
+  skeleton_wf sk
+  && expr_eqb (sk_oy_expr sk) (EConst 0) && expr_eqb (sk_ox_expr sk) (EConst 0)
+  && match sk_src sk with AOpaque _ => true | _ => false end
+  && match sk_writes sk with
+     | [w] => match w_target w with AZeros _ => true | _ => false end
+              && kernel_eqb (w_kernel w) (if mx then KArgmaxLookup else KArgminLookup)
+     | _ => false
+     end.
+
+(* median_filter / filter_bilateral: offsets int(W / 2), the output is np.copy(a) and the chunks are
+   windows of that same a *)
+Definition filter_skeleton_ok (k : kernel) (sk : skeleton) : bool :=
+  skeleton_wf sk
+  && expr_eqb (sk_oy_expr sk) half_win && expr_eqb (sk_ox_expr sk) half_win
+  && match sk_writes sk, sk_src sk with
+     | [w], AWindows a => match w_target w with ACopy _ a' => aexp_eqb a a' | _ => false end
+                          && kernel_eqb (w_kernel w) k
+     | _, _ => false
+     end.
+
+(* disparity_range: offsets int((W - 1) / 2), two np.full_like outputs (min then max), windows *)
+Definition ms_skeleton_ok (sk : skeleton) : bool :=
+  skeleton_wf sk
+  && expr_eqb (sk_oy_expr sk) half_win_m1 && expr_eqb (sk_ox_expr sk) half_win_m1
+  && match sk_writes sk, sk_src sk with
+     | [w1; w2], AWindows _ =>
+         match w_target w1, w_target w2 with
+         | AFullLike v1, AFullLike v2 => negb (v1 =? v2)
+         | _, _ => false
+         end
+         && kernel_eqb (w_kernel w1) KNanMinMinusMarge && kernel_eqb (w_kernel w2) KNanMaxPlusMarge
+     | _, _ => false
+     end.
+
+Lemma half_win_val : forall w, 0 <= w -> eval0 w half_win = w / 2.
+Proof. intros w H. unfold eval0, half_win. cbn [eval]. apply Z.quot_div_nonneg; lia. Qed.
+Lemma half_win_m1_val : forall w, 1 <= w -> eval0 w half_win_m1 = (w - 1) / 2.
+Proof. intros w H. unfold eval0, half_win_m1. cbn [eval]. apply Z.quot_div_nonneg; lia. Qed.
+
+(* the mutations of the skeleton met in practice are NOT the loop: executed on a 1 x 3 array with
+   B = 1 (three column blocks), "x_begin initialised before the outer loop" coincides with the
+   canonical loop only on the first row block; with two row blocks it writes the second row of
+   blocks at columns 3.. instead of 0.. *)
+Definition ex_canon : skeleton :=
+  mkSkeleton (mkSplit (AOpaque 0) 1 (DimShape (AOpaque 0) 0) 1 0)
+             (mkSplit (AChunk COuter) 1 (DimShape (AOpaque 0) 1) 1 1)
+             [SAssign 0 (EConst 0)] [SAssign 1 (EConst 0)]
+             [SWrite (mkWrite (AZeros 0) (EVar 0) (EAdd (EVar 0) (EShape COuter 0)) (EVar 1)
+                              (EAdd (EVar 1) (EShape CInner 1)) KNanMedian (AChunk CInner));
+              SAug 1 (EShape CInner 1)]
+             [SAug 0 (EShape COuter 0)].
+Definition ex_x_not_reset : skeleton :=
+  mkSkeleton (sk_outer ex_canon) (sk_inner ex_canon)
+             [SAssign 0 (EConst 0); SAssign 1 (EConst 0)] []
+             (sk_inner_body ex_canon) (sk_outer_post ex_canon).
+Definition ex_run (sk : skeleton) : list (list Z) :=
+  let out := snd (exec (fun _ i j => 10 * i + j + 1) 0 2 3 (AZeros 0) sk 2 3 (fun _ => 0, fun _ _ => 0)) in
+  map (fun r => map (out r) [0; 1; 2; 3; 4; 5]) [0; 1].
+Example ex_canon_wf : skeleton_wf ex_canon = true /\ ex_run ex_canon = [[1; 2; 3; 0; 0; 0]; [11; 12; 13; 0; 0; 0]].
+Proof. vm_compute. split; reflexivity. Qed.
+Example ex_x_not_reset_refused :
+  skeleton_wf ex_x_not_reset = false /\ ex_run ex_x_not_reset = [[1; 2; 3; 0; 0; 0]; [0; 0; 0; 11; 12; 13]].
+Proof. vm_compute. split; reflexivity. Qed.
